@@ -12,7 +12,11 @@ pub mod common;
 #[cfg(kani)]
 pub mod stubs;
 
+pub mod c08;
+pub mod c09;
+pub mod c10;
 pub mod c11;
+pub mod c13;
 pub mod c17;
 pub mod c20;
 
@@ -22,7 +26,12 @@ pub type NativeFn = fn(&mut BytesSrc);
 
 pub fn registry() -> Vec<(&'static str, NativeFn)> {
     let mut v: Vec<(&'static str, NativeFn)> = Vec::new();
+    v.extend_from_slice(c08::REG);
+    v.extend_from_slice(c09::REG);
+    v.extend_from_slice(c10::REG);
     v.extend_from_slice(c11::REG);
+    v.extend_from_slice(c13::REG);
+    v.extend_from_slice(c13::geo::REG);
     v.extend_from_slice(c17::REG);
     v.extend_from_slice(c20::REG);
     v
